@@ -495,6 +495,15 @@ def gen_program(st, flavour, tier):
                                   "on": rk.choice(["all", "all", "rule", "datasource", "parser", "plugin"]),
                                   "raises": fl["observers"] > 1 and rf.random() < 0.4,
                                   "glob": rk.random() < 0.3, "nameless": rk.random() < 0.3})
+    if flavour == "C03" and rf.random() < 0.08:
+        # ONE exception object surfacing in several components (a lazily loading provider keeps the exception of its
+        # failed load and re-raises the same object to every consumer): each of them raised it, each is accountable
+        cands = [i for i, nd in enumerate(nodes) if nd["type"] in PLUGIN_TYPES]
+        if len(cands) >= 2:
+            oc = rf.choice(["ce", "cpe"])
+            for i in rf.sample(cands, rf.randint(2, min(3, len(cands)))):
+                nodes[i]["out"] = oc
+                nodes[i]["xshare"] = 0
     if flavour == "C02" and rk.random() < 0.15:
         # a component that flips the enabled switch of a component DOWN-stream of itself while the evaluation is under
         # way (dr.set_enabled from a component body, as a configuration-loading component or an observer may do): the
@@ -824,6 +833,8 @@ def model(case, fixed_f1=True, pool_thread=False, prior=None, disabled=()):
             en[j] = state                      # the body ran: the switch of a down-stream component is flipped
         oc = nd["out"]
         tag = name
+        if nd.get("xshare") is not None and oc in ("ce", "cpe"):
+            tag = "shared%d" % nd["xshare"]
         if oc == "slow":
             tmo = nd.get("timeout") or 120
             if t == "datasource" and hostctx and not pool_thread and nd["work"] > tmo:
@@ -903,6 +914,7 @@ class World(object):
         self.objs = []
         self.pool = None
         self.faults_fired = {}
+        self.shared_exc = {}
 
     def fired(self, kind):
         self.faults_fired[kind] = self.faults_fired.get(kind, 0) + 1
@@ -936,6 +948,12 @@ class World(object):
             if oc == "emptystr":
                 return ""
             world.fired(oc)
+            if nd.get("xshare") is not None and oc in ("ce", "cpe"):
+                world.fired("same_exception_object_raised_again")
+                key = (nd["xshare"], oc)
+                if key not in world.shared_exc:
+                    world.shared_exc[key] = make_exc(oc, "shared%d" % nd["xshare"])
+                raise world.shared_exc[key]
             raise make_exc(oc, tag)
 
         def toggle():
@@ -1252,6 +1270,8 @@ def run_driver(world, driver, graph):
             pool.trace_main_now()
             try:
                 dr.run_all(graph, b, pool)
+                # what the caller finds when run_all hands control back: every sub-graph must be finished by then
+                world.pending_at_return = sum(1 for t in pool.tasks if not t.done)
             finally:
                 pool.shutdown()
             return [b], None, pool
@@ -1362,6 +1382,7 @@ def execute_once(case, driver):
             r.signal = patches.sig
             r.clock = world.clock
             r.forced_order = getattr(world, "forced_order", None)
+            r.pending_at_return = getattr(world, "pending_at_return", 0)
             r.faults_fired = world.faults_fired
     return r
 
@@ -1383,6 +1404,9 @@ def oracle_c01(case, driver, r):
     if r.escaped is not None:
         out.append(V("C01.escape", "escape:%s" % type(r.escaped).__name__, "driver %s raised %r" % (driver["kind"], r.escaped)))
         return out
+    if getattr(r, "pending_at_return", 0):
+        out.append(V("C01.completion", "run_all-returned-before-its-sub-graphs-finished",
+                     "%d pool task(s) were still running when run_all returned" % r.pending_at_return))
     # (iv) the real ordering function returns a linear extension with every node exactly once
     ro = r.run_order
     if isinstance(ro, tuple):
@@ -2080,6 +2104,9 @@ class C04(EngineCheck):
                 if pinned_here is not None:
                     viols[-1]["replay_case"] = pinned_here
                 continue
+            if getattr(r, "pending_at_return", 0):
+                viols.append(V("C04.completion", "run_all-returned-before-its-sub-graphs-finished:%s" % klabel,
+                               "%d pool task(s) were still running when run_all returned: what the caller reads then depends on the schedule" % r.pending_at_return))
             sg = _norm({"vals": r.sig["vals"], "excs": r.sig["excs"], "miss": r.sig["miss"]})
             sigs.append(sg)
             if r.sig["conflicts"]:
